@@ -138,6 +138,8 @@ def run_type(res, T, rng, tier):
                             if how == "by-name":
                                 want = dict(sc.members)[value]
                             res.count("inrange_readbacks")
+                            if res.counters["inrange_readbacks"] % 3001 == 1 and exc is None:
+                                res.sample(dict(case, outcome=f"reads back {getattr(m, sc.name)!r}"))
                             if exc is not None:
                                 res.violation(f"C09:inrange-raised:{K}:{path}", f"{K} = {value!r} ({mode}, {path}) raised {exc!r}", case)
                                 continue
@@ -173,6 +175,8 @@ def run_type(res, T, rng, tier):
                             if _val(now) != _val(prev) or type(now) is not type(prev):
                                 res.violation(f"C09:prev-lost:{K}", f"rejected {K} = {value!r} left {now!r}, previous was {prev!r}", case)
                         res.count("rejections_confirmed")
+                        if res.counters["rejections_confirmed"] % 400 == 1:
+                            res.sample(dict(case, outcome=f"rejected with {type(exc).__name__}", previous_value_kept=True))
                 if errors.RAISE_CONTROLLER_VALUE_ERRORS is not True:
                     res.violation("C09:strict-flag-leaked", "strictness flag not restored after lenient block", {"type": T})
 
@@ -206,9 +210,6 @@ def run_shard(spec_, res):
     for T in spec_["types"]:
         run_type(res, T, rng, spec_["tier"])
         res.count("types_visited")
-    if spec_["shard"] == 0:
-        res.sample({"type": "Amplifier", "controller": "balance", "mode": "strict", "path": "setattr", "value": 129, "expect": "ControllerValueError, previous value kept"})
-        res.sample({"type": "Adsr", "controller": "attack_curve", "path": "constructor", "value": "exp2", "expect": "reads back Curve.exp2"})
     res.exhaustive = True
 
 
